@@ -1085,6 +1085,14 @@ class Evaluator:
 
     def mk_sub(self, base, idx):
         a = base.single_atom()
+        ta = idx.single_atom()
+        if ta is not None and ta[0] == "tuple" and 2 <= len(ta[1]) <= 3 and all(x.is_const() and x.const_value().denominator == 1 for x in ta[1]) \
+                and not (a is not None and a[0] == "getattr" and a[2] in ("iloc", "loc", "at", "iat")):
+            # x[0, 0] == x[0][0] for integer positions of an array
+            out = base
+            for x in ta[1]:
+                out = self.mk_sub(out, x)
+            return out
         if a is not None:
             if a[0] in ("list", "tuple") and idx.is_const():
                 i = idx.const_value()
@@ -1323,7 +1331,7 @@ class Evaluator:
         if len(e.generators) == 1 and kind in ("list", "gen", "dict"):
             itv = self.ev(e.generators[0].iter, st)
             ia = itv.single_atom()
-            if ia is not None and ia[0] in ("tuple", "list") and 1 <= len(ia[1]) <= 6:
+            if ia is not None and ia[0] in ("tuple", "list") and 1 <= len(ia[1]) <= 12:
                 sub = State(st.attrs, dict(st.locs))
                 out = []
                 decided = True
@@ -1521,7 +1529,13 @@ class Evaluator:
         kwargs = {}
         for k in e.keywords:
             if k.arg is None:
-                kwargs["**"] = self.ev(k.value, st)
+                dv = self.ev(k.value, st)
+                da = dv.single_atom()
+                if da is not None and da[0] == "dict" and all(T.is_pure_const(k_) and isinstance(T.const_py(k_), str) for k_, _v in da[1]):
+                    for k_, v_ in da[1]:
+                        kwargs[T.const_py(k_)] = v_   # f(**{"a": x}) is f(a=x)
+                else:
+                    kwargs["**"] = dv
             else:
                 kwargs[k.arg] = self.ev(k.value, st)
         return args, kwargs
